@@ -112,6 +112,12 @@ pub enum Op {
     /// the adversary re-signs certificate `at` and all its descendants consistently (keys, parameters, commitments,
     /// hashes, links); the only thing it cannot produce is the honest parent's commitment
     AdvFork { at: u16, same_params: bool, parent: ParentFix },
+    /// honest keys, parameters of the provider's choice: certificate `at` says phi_f = 1 (every registered signer wins
+    /// every lottery: one of them is a quorum) in its metadata and is re-signed under those parameters by the honest
+    /// signers of its own epoch (aggregate key unchanged), re-hashed and re-linked; `parent_too`: its parent is served
+    /// with the same parameters in its metadata - which no signature covers - re-hashed, the certificate pointing to
+    /// the new hash. Parameters are only ever inherited through what a parent's SIGNED message commits to.
+    LaxParams { at: u16, first_after_genesis: bool, parent_too: bool },
     Retarget { at: u16, rel: Rel, to: u16, rehash: bool, repoint: bool },
     Drop { at: u16 },
     /// serve certificate `cert` for the hash of certificate `key_of`
@@ -420,6 +426,34 @@ fn apply_op(st: &mut Store, op: &Op, cx: &Ctx) {
                 st.notes.push("resign-skipped".into());
             }
             st.finish(i, *rehash, *repoint);
+        }
+        Op::LaxParams { at, first_after_genesis, parent_too } => {
+            let Some(mut i) = st.standard_slot(*at) else { return };
+            if *first_after_genesis {
+                // aim at a certificate whose parent is a genesis certificate (the first of the epoch after it)
+                let cands: Vec<usize> = (0..st.certs.len())
+                    .filter(|x| !st.certs[*x].is_genesis() && st.served.get(&st.certs[*x].previous_hash).is_some_and(|p| st.certs[*p].is_genesis()))
+                    .collect();
+                if !cands.is_empty() {
+                    i = cands[pick_index(*at, cands.len())];
+                }
+            }
+            let honest = cx.built.worlds[cx.built.spec.world_index(st.offset[i])].clone();
+            let lax = WorldSpec { seed: honest.spec.seed, stakes: honest.spec.stakes.clone(), params: PSpec::new(honest.spec.params.k, honest.spec.params.m, 1.0) };
+            let Some(w) = world_cached(&lax) else { return };
+            if *parent_too {
+                if let Some(&p) = st.served.get(&st.certs[i].previous_hash) {
+                    st.certs[p].metadata.protocol_parameters = w.spec.params.entity();
+                    st.touched.insert(p);
+                    st.rehash_slot(p, true);
+                }
+            }
+            let c = &mut st.certs[i];
+            c.metadata.protocol_parameters = w.spec.params.entity();
+            if !resign(c, &w) {
+                st.notes.push("resign-skipped".into());
+            }
+            st.finish(i, true, true);
         }
         Op::AdvFork { at, same_params, parent } => {
             let Some(i) = st.standard_slot(*at) else { return };
@@ -895,6 +929,9 @@ fn label_ops(rep: &mut Report, ops: &[Op], constant: bool) {
                     rep.label("class:adversary-resign+rehash");
                 }
             }
+            Op::LaxParams { parent_too, first_after_genesis, .. } => {
+                rep.label(format!("lax-params:parent-{}:{}", if *parent_too { "rewritten" } else { "untouched" }, if *first_after_genesis { "after-genesis" } else { "anywhere" }));
+            }
             Op::AdvFork { parent, .. } => {
                 rep.label("class:adversary-resign+rehash");
                 rep.label(format!("advfork:parent-{parent:?}"));
@@ -1196,6 +1233,7 @@ fn op_strategy() -> impl Strategy<Value = Op> {
         6 => (any::<u16>(), field_alter(), b(), mostly(), mostly()).prop_map(|(at, field, resync_msg, rehash, repoint)| Op::Alter { at, field, resync_msg, rehash, repoint }),
         3 => (any::<u16>(), world_sel(), mostly(), b(), mostly(), mostly()).prop_map(|(at, by, adopt_key, commit_next, rehash, repoint)| Op::Resign { at, by, adopt_key, commit_next, rehash, repoint }),
         3 => (any::<u16>(), b(), parent_fix()).prop_map(|(at, same_params, parent)| Op::AdvFork { at, same_params, parent }),
+        2 => (any::<u16>(), b(), mostly()).prop_map(|(at, first_after_genesis, parent_too)| Op::LaxParams { at, first_after_genesis, parent_too }),
         4 => (any::<u16>(), rel(), any::<u16>(), mostly(), mostly()).prop_map(|(at, rel, to, rehash, repoint)| Op::Retarget { at, rel, to, rehash, repoint }),
         1 => any::<u16>().prop_map(|at| Op::Drop { at }),
         1 => (any::<u16>(), any::<u16>()).prop_map(|(key_of, cert)| Op::ServeFor { key_of, cert }),
